@@ -411,6 +411,12 @@ func IsErrorType(t types.Type) bool {
 	return types.Identical(t, types.Universe.Lookup("error").Type())
 }
 
+// IsErrorSlice: t is []error.
+func IsErrorSlice(t types.Type) bool {
+	sl, ok := t.Underlying().(*types.Slice)
+	return ok && IsErrorType(sl.Elem())
+}
+
 // Global returns the *ssa.Global if v is a load of a package-level variable.
 func GlobalLoad(v ssa.Value) *ssa.Global {
 	v = Origin(v)
